@@ -39,6 +39,10 @@ type WALFileType struct {
 	WALBypass         bool              // TODO: refactor: unexport this param
 	BackgroundSync    bool              // TODO: refactor: unexport this param
 	shutdownPending   *bool
+	// flushMu serializes FlushToWAL and CreateCheckpoint: they are normally run by the WAL
+	// writer goroutine only, but a write request flushes inline when that goroutine is not
+	// (or no longer) running, e.g. while the server shuts down
+	flushMu           sync.Mutex
 	walWaitGroup      *sync.WaitGroup
 	tpd               *TriggerPluginDispatcher
 	txnPipe           *TransactionPipe
@@ -230,6 +234,8 @@ func (wf *WALFileType) FlushToWAL() (err error) {
 	if wf.txnPipe == nil {
 		return nil
 	}
+	wf.flushMu.Lock()
+	defer wf.flushMu.Unlock()
 
 	WTCount := len(wf.txnPipe.writeChannel)
 	if WTCount == 0 {
@@ -461,6 +467,8 @@ func (wf *WALFileType) writePrimary(keyPath string, writes []wal.OffsetIndexBuff
 // not goroutine-safe with FlushToWAL and caller should make sure
 // it is streamlined.
 func (wf *WALFileType) CreateCheckpoint() error {
+	wf.flushMu.Lock()
+	defer wf.flushMu.Unlock()
 	if wf.lastCommittedTGID == 0 {
 		return nil
 	}
